@@ -1,7 +1,7 @@
 (* C14 — the debugger command language is total, unambiguous and transport-independent. *)
 From Coq Require Import List NArith ZArith Bool String.
 From Lace Require Import CmdSpec Cmd CmdProofs.
-From Lace Require Dbg DebugText DebugTextProofs.
+From Lace Require Dbg DbgBad DebugText DebugTextProofs.
 Import ListNotations.
 Open Scope N_scope.
 
@@ -154,6 +154,17 @@ Proof.
   exact (DebugTextProofs.bad_line_step env d st).
 Qed.
 Print Assumptions C14_debug_rejected.
+
+(** ... for the whole session: wherever the rejected line stands among the lines of the script, the
+    session with it and the session without it end the same way — same stop, exit status, registers,
+    PC, condition code, memory, console, iteration / instruction / command counts, breakpoints,
+    status, saved initial state.  Only the debugger's stderr differs. *)
+Theorem C14_debug_no_effect : forall env fuel ls1 l e ls2 d st t e0 c, try_from l = Err e ->
+  DbgBad.same_but_stderr
+    (Dbg.session env fuel (DebugTextProofs.script_of_lines (ls1 ++ l :: ls2)) d st t e0 c)
+    (Dbg.session env fuel (DebugTextProofs.script_of_lines (ls1 ++ ls2)) d st t e0 c).
+Proof. exact DebugTextProofs.rejected_line_session. Qed.
+Print Assumptions C14_debug_no_effect.
 
 (** Non-vacuity. *)
 Example C14_nonvacuous_int :
